@@ -456,7 +456,7 @@ fn near_singular<T: Tier, M: MatN<T, N> + InvT<T>, const N: usize>(rep: &mut Rep
 /// the determinant, an `is_diagonal()` / `is_zero()` fast path) breaks it at one end of the ladder or the other
 fn scaling<T: Tier, M: MatN<T, N> + InvT<T>, const N: usize>(rep: &mut Report) {
     // (exponents such that nothing leaves the range - 8.5 - and the exact tier's integers stay within i128)
-    let ks: Vec<i32> = if T::EXACT { vec![-6, 6] } else if T::NAME == "F" { vec![-20, -12, 12, 20] } else { vec![-60, -25, -12, 12, 25, 60] };
+    let ks: Vec<i32> = if T::EXACT { vec![-6, 6] } else if T::NAME == "F" { (-20..=20).step_by(2).filter(|k| *k != 0).collect() } else { (-60..=60).step_by(4).filter(|k| *k != 0).collect() };
     let bs: Vec<(&'static str, Vec<R>)> = bases::<N>().into_iter().filter(|b| !b.0.starts_with("tiny")).collect();
     rep.cases(
         &format!("scaling/{}", M::NAME),
